@@ -25,8 +25,8 @@ mod util;
 
 /// Finds an `await` / `yield` that belongs to the function the visited code is written in.
 #[derive(Default)]
-struct SuspendFinder {
-    found: Option<Span>,
+pub(crate) struct SuspendFinder {
+    pub(crate) found: Option<Span>,
 }
 
 impl Visit for SuspendFinder {
